@@ -224,14 +224,14 @@ PLANS["C07"] = {
 PLANS["C15"] = {
     "level": "model_checking",
     "kani": {"quick": ["c15::consuming_vs_cloning_2", "c15::shape_xyx"],
-             "thorough": ["c15::consuming_vs_cloning_2", "c15::shape_xyx", "c15::consuming_vs_cloning_3", "c15::shape_yxyx", "c15::shape_xlyx"]},
+             "thorough": ["c15::consuming_vs_cloning_2", "c15::shape_xyx", "c15::shape_yxyx", "c15::shape_xlyx"]},
     "kani_timeout": {"quick": 900, "thorough": 3000},
     "kani_jobs": {"thorough": 2},
     "owns_unprefixed": True,
     "trusted_base": [A_CBMC, A_FMT, A_NOOVF], "assumptions": [A_CBMC, A_FMT, A_NOOVF],
     "not_covered": ["entry points eval_vec / eval_iter (arity guards, collection of the iterator)", "expressions with more than 3 nodes or more than 2 variables", "unary chains longer than 1"],
     "bounds": {"quick": ["2 nodes, each a symbolic choice of {literal, var 0, var 1} with optional unary function, symbolic values", "the concrete 3-node shape x y x (order: right operator first), symbolic values and unary flags"],
-               "thorough": ["as quick, plus 3 nodes with symbolic shape and application order, plus the concrete shapes y x y x and x L y x (x x x did not finish in 15 min and is not part of any tier)"]},
+               "thorough": ["as quick, plus the concrete 4-node shapes y x y x and x L y x (3 nodes with a symbolic shape exhaust 28 GB, the shape x x x does not finish in 15 min: neither is part of a tier)"]},
     "explanation": "Bounded: eval_flatex_consuming_vars agrees with eval_flatex_cloning and with an independent reference reduction; no moved-out value reaches an operator; single-occurrence variables are not cloned.",
 }
 PLANS["C15"]["native_probes"] = {t: [("c15::consuming_vs_cloning_5", 50000), ("c15::consuming_vs_cloning_36", 20000)] for t in ("quick", "thorough")}
